@@ -389,6 +389,8 @@ def run_fs(desc):
 
 
 def replay(case):
+    if case.get('stream') == 'both-styles':
+        return c02.replay(case)
     m = case.get('mode')
     if m == 'exclude':
         pathmode, pi, pe, how, n = case['pathmode'], case['include'], case['exclude'], case['how'], case['name']
@@ -445,6 +447,6 @@ def replay(case):
 
 
 def shrink(case):
-    if case.get('mode') in ('exclude', 'fs', 'fs-missing', 'wcmatch', 'dotspell'):
+    if case.get('mode') in ('exclude', 'fs', 'fs-missing', 'wcmatch', 'dotspell') or case.get('stream') == 'both-styles':
         return case
     return lang.shrink_case(case)
